@@ -53,6 +53,9 @@ type Graph struct {
 	CFG    *cfg.CFG
 	byAst  map[ast.Node]*GNode
 	caseOf map[*ast.CaseClause]ast.Stmt
+	// AssignIdents: identifiers that go/cfg emits as nodes because they are
+	// assigned (range key/value, select receive target), not read.
+	AssignIdents map[*ast.Ident]bool
 }
 
 var noReturnFuncs = map[string]bool{
@@ -81,7 +84,7 @@ func (f *FuncInfo) Graph() *Graph {
 	}
 	info := f.Info()
 	c := cfg.New(f.Body(), mayReturn(info))
-	g := &Graph{F: f, CFG: c, byAst: map[ast.Node]*GNode{}, caseOf: map[*ast.CaseClause]ast.Stmt{}}
+	g := &Graph{F: f, CFG: c, byAst: map[ast.Node]*GNode{}, caseOf: map[*ast.CaseClause]ast.Stmt{}, AssignIdents: map[*ast.Ident]bool{}}
 	ast.Inspect(f.Body(), func(n ast.Node) bool {
 		switch s := n.(type) {
 		case *ast.SwitchStmt:
@@ -91,6 +94,18 @@ func (f *FuncInfo) Graph() *Graph {
 		case *ast.TypeSwitchStmt:
 			for _, cl := range s.Body.List {
 				g.caseOf[cl.(*ast.CaseClause)] = s
+			}
+		case *ast.RangeStmt:
+			for _, kv := range []ast.Expr{s.Key, s.Value} {
+				if id, ok := kv.(*ast.Ident); ok {
+					g.AssignIdents[id] = true
+				}
+			}
+		case *ast.CommClause:
+			if as, ok := s.Comm.(*ast.AssignStmt); ok && len(as.Lhs) > 0 {
+				if id, ok := as.Lhs[0].(*ast.Ident); ok {
+					g.AssignIdents[id] = true
+				}
 			}
 		case *ast.FuncLit:
 			return false
